@@ -16,3 +16,4 @@ def check(ctx, env):
     K.r10_3_last_on_send(ctx, prog)
     K.r10_4_constants(ctx, prog)
     K.r4_2_validate_attribute(ctx, prog, rule="R10.5")
+    K.r4_7_input_text(ctx, prog, rule="R10.6")        # the CRC input ends at the first FINGERPRINT
